@@ -1,4 +1,4 @@
-\* judge for C05: allocation bound K * MaxBody + Slack = 6 * 16 MiB + 1 MiB (DESIGN.md Appendix B)
+\* judge for C05: allocation bounds per call: ReadPacket 6 * 16 MiB + 1 MiB (DESIGN.md Appendix B), HandlePacket 12 * 16 MiB + 1 MiB
 CONSTANTS
   MaxBodyKiB = 16384
   KRead = 6
